@@ -261,6 +261,26 @@ package check
 //@   loop range:varmaps exits-early-only-if [every-member-is-visited] false
 //@ end
 
+// ---- C18: go-to-definition / hover on a module string resolve it the way the analysis does ----
+// by complete path when ReferMatchPathFlag is configured (the analysis then reports 'file not found' for anything
+// else), by the fuzzy best match otherwise - never the fuzzy match in complete-path mode
+//@ func (*AllProject).FindOpenFileDefine
+//@   props C18
+//@   at call GetBestMatchReferFile#0 before assert[fuzzy-match-only-in-fuzzy-mode] !common.GConfig.ReferMatchPathFlag
+//@   at call MatchAllDirReferFile#0 before assert[complete-path-match-in-complete-path-mode] common.GConfig.ReferMatchPathFlag && streq(arg1, strFile)
+//@ end
+
+// ---- C14: completion of a bare prefix offers the names in scope - also in the argument of a call whose parameter is
+// annotated with an alias of constants: the constants come first, the scope walk follows unless the cursor stands right
+// behind a quote or a blank (only then the constants are all there is)
+//@ func (*AllProject).noPreComplete
+//@   props C14
+//@   requires[request-state-is-set-up] a.completeCache != nil && a.completeCache.existMap != nil && completeVar != nil && comParam != nil
+//@   at call GetCompleteVar#0 before assert[scope-names-are-skipped-only-behind-a-quote-or-blank] !(lastresult("paramCandidateComplete#0") && completeVar.OnelyParamQuotesFlag)
+//@        && arg1 == completeVar && arg0 == comParam.scope
+//@   ensures[scope-names-follow-the-constants-of-an-alias-parameter] !completeVar.OnelyParamQuotesFlag ==> hits("GetCompleteVar#0") == 1
+//@ end
+
 // ---- C13: which comment is a declaration's documentation ----
 // the trailing comment on the declaration's own line first; only if there is none, the head comment block that ends on
 // the line before; a comment of the other kind stored under that line is not used.
@@ -331,6 +351,10 @@ package check
 //@   props C05
 //@   requires varStruct != nil
 //@   at call FindASTNode#0 before assert[innermost-scope-is-looked-up-at-the-cursor] arg1 == varStruct.PosLine && arg2 == varStruct.PosCh
+// `self` is rewritten to the table of the enclosing method only when the self at the cursor IS the method's implicit
+// parameter: an explicit parameter or a local named self shadows it (fix: lexical lookup first)
+//@   at call ChangeFuncSelfToReferVar#0 before assert[self-is-rewritten-only-when-it-is-not-shadowed] !selfShadowed
+//@   at call IsImplicitSelf#0 before assert[shadowing-is-decided-by-a-scope-lookup-at-the-cursor] arg1 == selfVar && hits("FindLocVar#0") == 1
 //@   ensures[cursor-is-handed-on-as-a-point-on-its-one-based-line] comParam != nil ==> comParam.loc.StartLine == varStruct.PosLine + 1 && comParam.loc.EndLine == varStruct.PosLine + 1
 //@        && comParam.loc.StartColumn == varStruct.PosCh && comParam.loc.EndColumn == varStruct.PosCh
 //@   ensures[lookup-has-a-scope-and-a-function] comParam != nil ==> comParam.scope != nil && comParam.fi != nil && comParam.fileResult != nil
